@@ -119,6 +119,9 @@ func trunc(es []string) []string {
 	return out
 }
 
+// SymWaitExceedsMax is the only symptom decided by an upper bound on elapsed time.
+const SymWaitExceedsMax = "retry-wait-exceeds-max"
+
 // JudgeC15: retry discipline (see DESIGN.md §5 C15).
 func JudgeC15(r *Record) {
 	c := r.Case
@@ -155,6 +158,13 @@ func JudgeC15(r *Record) {
 				r.add("retried-after-non-retriable", r.theme(), "%s attempted again after outcome %q", oid, p.Outcome)
 			case p.Outcome == "ok":
 				r.add("retried-after-success", r.theme(), "%s attempted again after a successful transfer", oid)
+			case p.Outcome == "retry" && r.theme() == "deferred-plus-backoff":
+				// a plain retriable failure waits for its (scaled) back-off, which is capped by
+				// lfs.transfer.maxretrydelay (1 s in this theme); 1.5 s of slack for a loaded machine. The
+				// runner re-runs a case that trips this clause and keeps the verdict only if it repeats.
+				if gap := a.Begin - p.End; gap > int64(c.MaxDelay)*1e9+15e8 {
+					r.add(SymWaitExceedsMax, r.theme(), "%s failed retriably and was re-attempted only %.3fs later although lfs.transfer.maxretrydelay=%ds (another object of the round was deferred by Retry-After)", oid, float64(gap)/1e9, c.MaxDelay)
+				}
 			case strings.HasPrefix(p.Outcome, "later:"):
 				var secs int64
 				fmt.Sscanf(strings.TrimPrefix(p.Outcome, "later:"), "%d", &secs)
